@@ -65,6 +65,21 @@ theorem rt_dumpUnion_pick {DW : DumpWorld} {cases : List Ty} {keys : List String
     | none => simp [dumpUnion.byClass, h2]
     | some vs => simp [h1 vs hl, dumpUnion.byClass, h2]
 
+theorem rt_dumpUnion_lit {DW : DumpWorld} {cases : List Ty} {keys : List String}
+    {dm : Ty → Val → Outcome Val} {x : Val} {vs : List Val} (h1 : literalVals cases = some vs)
+    (h2 : Val.memOf x vs = true) : dumpUnion.general DW cases keys dm x = .ok x := by
+  simp [dumpUnion.general, h1, h2]
+
+theorem rt_dumpUnion_cls {DW : DumpWorld} {cases : List Ty} {keys : List String}
+    {dm : Ty → Val → Outcome Val} {x : Val} {t : Ty}
+    (h1 : ∀ vs, literalVals cases = some vs → Val.memOf x vs = false)
+    (h2 : dispatchCase DW (dispatchTable keys cases []) x = some t) :
+    dumpUnion.general DW cases keys dm x = dm t x := by
+  unfold dumpUnion.general
+  cases hl : literalVals cases with
+  | none => simp [dumpUnion.byClass, h2]
+  | some vs => simp [h1 vs hl, dumpUnion.byClass, h2]
+
 /-! ### the loader finds the case -/
 
 theorem rt_unionFirstOk_hit {ld : Ty → Val → Outcome Val} {d x : Val} {pre post : List Ty} {t : Ty}
